@@ -162,6 +162,7 @@ type hrun struct {
 	tdown  int64 // clock at close.beforeTeardown (closed flag just published), 0 = not seen
 	// backlog shapes: queued bytes when the connection was torn down
 	bkAtClose int
+	notes     []string // evidence counters to bump at the end
 
 	closedCh chan struct{}
 	closedFl int32
@@ -335,22 +336,34 @@ func (x *hrun) waitHandled() {
 func (x *hrun) smallWrite(rng *rand.Rand) {
 	b := make([]byte, 16+rng.Intn(400))
 	before := nbio.VerifBacklog(x.srv)
+	api := "Write"
 	call := dl.Now()
-	n, err := x.srv.Write(b)
+	var n int
+	var err error
+	if rng.Intn(3) == 0 {
+		api = "Writev"
+		n, err = x.srv.Writev([][]byte{b[:len(b)/2], b[len(b)/2:]})
+	} else {
+		n, err = x.srv.Write(b)
+	}
 	ret := dl.Now()
 	after := nbio.VerifBacklog(x.srv)
 	if err != nil || n != len(b) {
-		x.logf("Write(%d) = %d, %v", len(b), n, err)
+		x.logf("%s(%d) = %d, %v", api, len(b), n, err)
 		return
 	}
 	if before.Entries == 0 && after.Entries == 0 && !before.Closed {
 		// the only writer is this goroutine and the queue was empty before and
 		// after: the call ended with an empty backlog, which cancels the write timer
 		x.record(part{dirs: []int{1}, e: dl.Effect{Kind: "wclear", Call: call, Ret: ret, MustClear: true}})
-		x.logf("Write(%d) returned with an empty backlog call=%s ret=%s", len(b), dl.Ms(call), dl.Ms(ret))
+		x.logf("%s(%d) returned with an empty backlog call=%s ret=%s", api, len(b), dl.Ms(call), dl.Ms(ret))
+		r := "write_emptied_backlog_via_" + api
+		x.mu.Lock()
+		x.notes = append(x.notes, r)
+		x.mu.Unlock()
 	} else {
 		x.record(part{dirs: []int{1}, e: dl.Effect{Kind: "wmaybe", Call: call, Ret: ret, Keep: true}})
-		x.logf("Write(%d) backlog entries before=%d after=%d (no claim)", len(b), before.Entries, after.Entries)
+		x.logf("%s(%d) backlog entries before=%d after=%d (no claim)", api, len(b), before.Entries, after.Entries)
 	}
 }
 
@@ -625,6 +638,7 @@ func (x *hrun) final(r *h.Run, mon *dl.Monitor) {
 		return
 	}
 	late := func(tc int64) {
+		l, fired = c0.Late()
 		g := mon.MaxGap(ub, tc)
 		if fired && l <= maxCtlLate && g <= maxMonGap {
 			r.Violate("c16:"+which+":fired-late", fmt.Sprintf("deadline upper bound %s, control timer for the same instant ran %v late, but the close notification arrived at %s (%s after the bound); longest scheduling gap seen in between %v\n%s", dl.Ms(ub), l, dl.Ms(tc), dl.Ms(tc-ub), g, x.dump()), coreCase{x.cfg, x.hs})
@@ -942,6 +956,9 @@ func runCoreBatch(r *h.Run, cfg outb.Cfg, hists []histT, mon *dl.Monitor) {
 			}
 		}
 		n := x.nSets
+		for _, k := range x.notes {
+			r.Count(k, 1)
+		}
 		x.mu.Unlock()
 		if x.incon != "" {
 			r.Inconclusive(fmt.Sprintf("history %d (%s): %s", x.hs.Index, sh, x.incon))
